@@ -5,7 +5,7 @@ from common import hx
 from hexlib import HexaryTrie, keccak, Boom, WriteFailed, FailingDict
 
 ID = "C04"
-LEAN_IMPORTS = ["PyTrie.Props.C04"]
+LEAN_IMPORTS = ["PyTrie.Props.C04", "PyTrie.Props.RawLevel"]
 THEOREMS = [
     "PyTrie.Props.C04.set_writes_addressed",
     "PyTrie.Props.C04.delete_writes_addressed",
@@ -16,6 +16,9 @@ THEOREMS = [
     "PyTrie.Props.C04.lookup_eq_get?",
     "PyTrie.Props.C04.op_keeps_complete",
     "PyTrie.Props.C04.complete_survives",
+    "PyTrie.Props.Raw.set_refines",
+    "PyTrie.Props.Raw.delete_refines",
+    "PyTrie.Props.Raw.keccak_is_std",
 ]
 RULE = ("interleaved histories of several non-pruning tries over ONE shared database: set/delete on any trie, fresh tries "
         "opened at earlier roots, at_root snapshot reads, squash_changes blocks (normal exit, exception after n operations, n-th "
